@@ -2,7 +2,7 @@
 import networkx as nx
 
 import lit
-import _resolver as RS
+from props import _resolver as RS
 
 ATTRS = ['fragid', 'order', 'x', 'name']
 
